@@ -389,6 +389,21 @@ pub open spec fn sref_imp(i: Instance, sref: gds21::GdsStructRef, m: CellMap) ->
     &&& same_pt(sref.xy, i.loc)
     &&& match sref.strans { None => !i.reflect_vert && i.angle is None, Some(st) => !st.abs_mag && !st.abs_angle && i.reflect_vert == st.reflected && i.angle == st.angle }
 }
+/// the placements of an un-rotated array reference: cols x rows instances on the lattice spanned by the three points, column-major,
+/// all of the referenced cell, none rotated, all reflected as the array is (rotated arrays: unspecified — floats, rule R11)
+pub open spec fn aref_imp(v: Seq<Instance>, aref: gds21::GdsArrayRef, m: CellMap) -> bool {
+    (aref.strans is None || aref.strans->0.angle is None) ==> ({
+        let c = aref.cols as int; let w = aref.rows as int;
+        let xs = tdiv(aref.xy@[1].x - aref.xy@[0].x, c); let ys = tdiv(aref.xy@[2].y - aref.xy@[0].y, w);
+        &&& c > 0 && w > 0 &&& v.len() == c * w
+        &&& forall|ix: int, iy: int| 0 <= ix < c && 0 <= iy < w ==> ({
+                let i = v[#[trigger] idx(ix, w, iy)];
+                &&& i.loc.x == aref.xy@[0].x + ix * xs &&& i.loc.y == aref.xy@[0].y + iy * ys
+                &&& Some(i.cell) == m.lookup(aref.name@) &&& i.angle is None
+                &&& i.reflect_vert == (aref.strans is Some && aref.strans->0.reflected)
+            })
+    })
+}
 /// raw element `e` is the import of GDSII boundary `x`: a Rect exactly for the two axis-aligned closed 4-corner walks, else the polygon without its closing point; no net yet; on x's layer
 pub open spec fn boundary_imp(e: Element, x: gds21::GdsBoundary) -> bool {
     let n = x.xy@.len() as int;
@@ -479,18 +494,8 @@ impl GdsImporter {
 //|         (aref.cols <= 0 || aref.rows <= 0) ==> !(r is Ok && r->Ok_0 is Some),
 //|         old(self).cell_map.lookup(aref.name@) is None ==> r is Err,
 //|         // un-rotated arrays: cols x rows placements on the lattice spanned by the three points
-//|         (r is Ok && r->Ok_0 is Some && (aref.strans is None || aref.strans->0.angle is None)) ==> ({
-//|             let v = r->Ok_0->0@; let c = aref.cols as int; let w = aref.rows as int;
-//|             let xs = tdiv(aref.xy@[1].x - aref.xy@[0].x, c); let ys = tdiv(aref.xy@[2].y - aref.xy@[0].y, w);
-//|             &&& c > 0 && w > 0 &&& v.len() == c * w
-//|             &&& forall|ix: int, iy: int| 0 <= ix < c && 0 <= iy < w ==> ({
-//|                     let i = v[#[trigger] idx(ix, w, iy)];
-//|                     &&& i.loc.x == aref.xy@[0].x + ix * xs &&& i.loc.y == aref.xy@[0].y + iy * ys
-//|                     &&& Some(i.cell) == old(self).cell_map.lookup(aref.name@) &&& i.angle is None
-//|                     &&& i.reflect_vert == (aref.strans is Some && aref.strans->0.reflected)
-//|                 })
-//|         }),
-//@   before /Create the Instances/
+//|         (r is Ok && r->Ok_0 is Some) ==> aref_imp(r->Ok_0->0@, *aref, old(self).cell_map),
+//@   before1 /Create the Instances|let mut insts\b/
 //|         let ghost rotated = aref.strans is Some && aref.strans->0.angle is Some;
 //|         let ghost c = aref.cols as int; let ghost w = aref.rows as int;
 //|         let ghost xs = tdiv(aref.xy@[1].x - aref.xy@[0].x, c); let ghost ys = tdiv(aref.xy@[2].y - aref.xy@[0].y, w);
